@@ -25,7 +25,7 @@ ASSUMPTIONS = [
 
 def plan(tier):
     base = {"case_time_limit": 600,
-            "required_classes": ["I:raw", "I:normalised", "T:thermal-prop", "T:exact", "P:exact-propagator", "X:evolve_exact",
+            "required_classes": ["I:raw", "I:normalised", "I:real-state-complex-H", "T:thermal-prop", "T:exact", "P:exact-propagator", "X:evolve_exact",
                                  "space:GS", "space:EX", "offset!=0", "family:pc", "family:ps", "family:vmf", "family:cmf"],
             "required_counters": {"oracle": 600, "ratios_measured": 40}}
     if tier == "quick":
@@ -59,10 +59,12 @@ def case_imag(ctx):
     if qntot is None:
         ctx.refuse("no sector with >= 3 states")
         return
-    full = evolve.generic_full_state(ctx, em, qntot, complex_amplitudes=bool(em.complex_h or rng.random() < 0.3))
+    full = evolve.generic_full_state(ctx, em, qntot, complex_amplitudes=bool(rng.random() < 0.4))
     if full is None:
         ctx.refuse("sector-aware random constructor refused")
         return
+    if em.mpo.is_complex and not full.is_complex:
+        ctx.cls("I:real-state-complex-H")
     if rng.random() < 0.3:
         full.coeff = full.coeff * float(rng.choice([2.0, 0.5]))
     psi = states.dense_of(full)
